@@ -82,6 +82,14 @@ impl Narrowing {
         matches!(self, Narrowing::Active { .. })
     }
 
+    /// The provenance the recorded narrowing is about, if one is active.
+    pub fn active_provenance(&self) -> Option<&Provenance> {
+        match self {
+            Narrowing::Active { provenance, .. } => Some(provenance),
+            _ => None,
+        }
+    }
+
     /// Mark that complement narrowing is disabled (non-type failable term encountered).
     pub fn disable(&mut self) {
         *self = Narrowing::Disabled;
